@@ -19,7 +19,7 @@ from pyvc.bounded import replayer
 from contracts.C12_bounded import GAMES, build, snapshot, diff, std_spec, chart_lists, game_table
 
 # converter outputs are treated as copies (design note K); set to False to drop the `fresh_convert_*` clauses
-CONVERTERS_ARE_COPIES = True
+CONVERTERS_ARE_COPIES = False
 
 warnings.filterwarnings("ignore")
 
